@@ -167,7 +167,7 @@ def build_case(r, art, k, stream):
 
 
 CONTROL = ("WHILE", "IF", "CALL_ONCE", "CALL")
-W_FAMS = ["mixed_cpu", "multi_custom", "ew_dag", "diamond", "multi_input", "mixed_cpu", "conv_chain", "single"]
+W_FAMS = ["mixed_cpu", "multi_custom", "ew_dag", "diamond", "multi_input", "mixed_cpu", "conv_chain", "single", "lstm"]
 
 
 def build_inference_case(r, art):
@@ -206,7 +206,8 @@ def build_inference_case(r, art):
     def enc(l):
         return [len(l)] + [v for x in l for v in x]
 
-    init = segs(g["inputs"])
+    # variable tensors (state kept between invocations, e.g. of an LSTM) hold a value before the first operator runs
+    init = segs(list(g["inputs"]) + [t["idx"] for t in g["tensors"] if t.get("variable")])
     npu_iter = iter([n for n in art["npu"] if n["sg"] == 0])
     ops = []
     for op in g["operators"]:
